@@ -768,8 +768,70 @@ def invalid_argument_calls():
     return out
 
 
+def call_site_locations():
+    """One decorated function used at several call sites (several LINES) of one description; the call site that fails is the
+    first, a middle or the last one: the exception names that node AND the line of THAT call.  Yields (case, problems)."""
+    import inspect as _inspect
+    import re as _re
+    from tawazi import dag as _dag, xn as _xn
+    FAIL = [None]
+
+    def check(v, k):
+        if k == FAIL[0]:
+            raise ValueError("check %d failed" % k)
+        return v
+    check.__qualname__ = check.__name__ = "check"
+    xcheck = _xn(check)
+
+    def pipe(x):
+        a = xcheck(x, 0)
+        b = xcheck(a, 1)
+        c = xcheck(b, 2)
+        d = xcheck(c, 3)
+        return d
+    src, first = _inspect.getsourcelines(pipe)
+    line_of = {}
+    for off, text in enumerate(src):
+        m = _re.search(r"xcheck\(\w+, (\d)\)", text)
+        if m:
+            line_of[int(m.group(1))] = first + off
+    for is_async in (False, True):
+        d = _dag(pipe, is_async=is_async)
+        for k in (0, 1, 2, 3):
+            FAIL[0] = k
+            bad = []
+            try:
+                r = d(5)
+                if is_async:
+                    import asyncio as _aio
+                    r = _aio.run(r)
+                bad.append("the call returned %r although call site %d fails" % (r, k))
+            except BaseException as e:  # noqa: BLE001
+                msg = str(e)
+                want_id = "check" if k == 0 else "check<<%d>>" % k
+                m = _re.search(r"ExecNode (\S+) at (.+):(\d+)$", msg)
+                if not m:
+                    bad.append("no node / location in the message: %r" % msg[:160])
+                else:
+                    if m.group(1) != want_id:
+                        bad.append("names node %s, the failing call site is %s" % (m.group(1), want_id))
+                    if int(m.group(3)) != line_of.get(k):
+                        bad.append("points at line %s, call site %d is written at line %s" % (m.group(3), k, line_of.get(k)))
+                if not isinstance(e.__cause__, ValueError):
+                    bad.append("cause is %r" % (e.__cause__,))
+            finally:
+                FAIL[0] = None
+            yield "%s/site-%d" % ("async" if is_async else "sync", k), bad
+
+
 def run_S_C14(pid, tier, seed):
     cov, fs, searcher = run_S(pid, tier, seed)
+    ncs = 0
+    for case, problems in call_site_locations():
+        ncs += 1
+        if problems:
+            fs.append(Failure("counterexample", "wrong-node-or-call-location(%s)" % case, dict(case=case), dict(problems=problems), slice_="S"))
+    cov["call_site_location_cases"] = ncs
     res = invalid_argument_calls()
     for is_async, args, want, got, ran in res:
         if got != want or ran:
@@ -1332,6 +1394,16 @@ def run_G(pid, tier, seed):
                     dbgset = set(m.get("debug_nodes", []))
                     model = ("SEL", [x for x in model[1] if x not in dbgset])
                     real = ("SEL", [x for x in real[1] if x not in dbgset]) if real[0] == "SEL" else real
+                if real != model and pid == "C13" and real[0] == "SEL" and m.get("dbg"):
+                    # flag on: the model's selection (GM.extendDebug — C13_flag_on_runs_debug_nodes: the selection itself, plus the
+                    # debug nodes below it whose inputs are all in the run) holds a DEBUG node the real one lacks although every
+                    # input of it is in the real run: an enabled debug node that can run, silently left out
+                    dbgset_ = set(m.get("debug_nodes", []))
+                    miss_ = [x for x in model[1] if x not in real[1] and x in dbgset_]
+                    if miss_ and set(real[1]) <= set(model[1]):
+                        failures.append(Failure("counterexample", "enabled-debug-node-with-all-inputs-in-the-run-left-out", sc,
+                                                dict(case=m["case"], missing=miss_, model=model, real=real), slice_="G"))
+                        continue
                 if real != model:
                     # which properties does a node-set mismatch concern?  debug-only differences: C13
                     failures.append(Failure("correspondence", "G-sel-nodes", sc,
@@ -1817,6 +1889,12 @@ def run_H(pid, tier, seed):
             failures.append(Failure("counterexample", "history-crashed:" + type(e).__name__, dict(sc=sc, ops=ops),
                                     dict(message=str(e)[:300]), slice_="H"))
             continue
+        if H.DRIFT:
+            # an operation changed the instance's own configuration (its concurrency limit): later calls no longer behave like
+            # calls of a freshly built DAG
+            failures.append(Failure("counterexample", "operation-changed-the-instances-max_concurrency", dict(sc=sc, ops=ops),
+                                    dict(drift=H.DRIFT[:2]), slice_="H"))
+            del H.DRIFT[:]
         stats["histories"] += 1
         stats["async_instances"] += int(sc["is_async"])
         hid = "h%d" % k
@@ -2283,6 +2361,10 @@ def run_C(pid, tier, seed):
                     f_ = sc["specs"][o]["flag"]
                     outs = [o] + [x for x in outs if x != o and x != f_][:1]
                     ins = [f_] + [x for x in ins if x not in (f_, o) and x not in outs][:2]
+                if ins != "ellipsis" and rng.random() < 0.15:
+                    # the same node asked for several times (one value per requested output, in request order)
+                    outs = outs + [rng.choice(outs)]
+                    stats["outputs_with_repeats"] = stats.get("outputs_with_repeats", 0) + 1
                 pairs.append((ins, outs))
         for ins, outs in pairs:
             if ins != "ellipsis" and set(ins) & set(outs):
